@@ -100,6 +100,11 @@ class AsyncRunner:
         """
         self._unpaused.clear()
 
+        # A runner that is stopped (or being stopped) cannot be paused: stop() may already have
+        # released the thread, make sure it is not blocked again
+        if self._stop.is_set():
+            self._unpaused.set()
+
     def unpause(self):
         """
         Unpause the execution.
